@@ -447,7 +447,11 @@ func C18Scenario() *Scenario {
 				}
 				w.Store.Delete(res, "ns1", name, DeleteOpts{}, "user")
 				w.Store.Compact(w.Store.RV())
-				gapAt[res] = w.Now() + 1
+				for _, r := range resources {
+					// (compaction is store-wide: an informer of the other resource that is just
+					// starting its watch is refused, too, and lists again after its back-off)
+					gapAt[r] = w.Now() + 1
+				}
 				w.FaultsFired["watch:410-relist-tombstone"]++
 				opLog = append(opLog, fmt.Sprintf("%d object-delete-in-watch-gap %s/%s", w.step, res.Kind, name))
 			case "advance":
